@@ -52,7 +52,11 @@ def decode_constant(raw, t):
   return ((q - zp) * sc).astype(np.float32)
 
 
-def reference_model(in_bytes, out_bytes):
+def tensor_data(m, tensor):
+  return m.buffers[tensor.buffer].data
+
+
+def reference_model(in_bytes, out_bytes, problems=None):
   """The input model with every rewritten constant replaced by its dequantised value."""
   from tensorflow.lite.tools import flatbuffer_utils
   m = project.read(in_bytes)
@@ -65,6 +69,15 @@ def reference_model(in_bytes, out_bytes):
       if pi["bufs"][ti["buf"]]["len"] > 0 and to["dt"] != ti["dt"]:
         raw = project.buffer_bytes(out_bytes, to["buf"])
         val = decode_constant(raw, to)
+        # "dequantised constants" are the originals quantised and dequantised: within one step of the original wherever the
+        # original is inside the representable range (integer forms only; float16 casting is C05's subject)
+        if to["dt"] in ("i4", "i8") and ti["dt"] == "f32" and to["scale"]:
+          orig = np.frombuffer(np.asarray(tensor_data(m, tensor), np.uint8).tobytes(), np.float32).reshape(val.shape)
+          step = float(np.max(to["scale"]))
+          bad = np.abs(val.astype(np.float64) - orig.astype(np.float64)) > step * 1.001 + 1e-6
+          if bad.any() and problems is not None:
+            problems.append(("dequantised-constant", "constant %s decodes under the parameters the output carries to %.5g where the original is %.5g (step %.5g)" %
+                             (tensor.name.decode(), float(val[bad][0]), float(orig[bad][0]), step)))
         m.buffers[tensor.buffer].data = np.frombuffer(val.astype(np.float32).tobytes(), np.uint8)
         changed += 1
   return bytes(flatbuffer_utils.convert_object_to_bytearray(m)), changed
@@ -113,8 +126,13 @@ def drq_bound(scn, info, si, oi, ref_bytes, x_by_name):
 def _task(item):
   scn, seed, dump = item
   out = {"key": synth.scn_key({k: scn[k] for k in ("subs", "mode", "inmode", "outmode")}), "problems": [], "obs": None, "kind": None, "diffs": None}
+  # a third of the scenarios get weights whose per-channel slices span equal widths at different offsets (numeric.eqrange_const)
+  import zlib
+  from harness import numeric
+  cfn = numeric.eqrange_const(np.random.default_rng(seed + 17)) if zlib.crc32(out["key"].encode()) % 3 == 0 else None
+  out["consts"] = "eqrange" if cfn else "normal"
   try:
-    impl = pipeline.run_impl(scn, seed=seed)
+    impl = pipeline.run_impl(scn, seed=seed, const_fn=cfn)
   except synth.Unrealisable as e:
     out["unreal"] = str(e)
     return out
@@ -131,7 +149,9 @@ def _task(item):
   info = impl["info"]
   inp, outp = project.project(impl["in_bytes"]), project.project(impl["out_bytes"])
   out["obs"] = pipeline.obs_record(0, scn, inp, outp)
-  ref, changed = reference_model(impl["in_bytes"], impl["out_bytes"])
+  ref, changed = reference_model(impl["in_bytes"], impl["out_bytes"], out["problems"])
+  if out["problems"]:
+    return out
   modes = [m["m"] for ms in scn["mode"] for m in ms]
   has_drq = "DRQ" in modes
   out["kind"] = "drq" if has_drq else ("exact" if changed else "untouched")
